@@ -40,7 +40,7 @@ MIN_NONTRIVIAL = {'quick': 1500, 'thorough': 30000}
 
 NUMS = [-5, -1, 0, 1, 2, 2.5, 3, 10, 100]
 TEXTS = ['a', 'A', 'ab', 'abc', 'b', 'B', 'bcd', 'x', 'apple', 'Apple', '1',
-         '10', 'a*', 'a?', 'z']
+         '10', 'a*', 'a?', 'z', 'ab\n', 'a\nb']
 LOGICALS = [False, True]
 RANK = {'number': 0, 'text': 1, 'logical': 2}
 COLS = 'ABCD'
@@ -74,7 +74,7 @@ def wildcard(pattern):
         else:
             out.append(re.escape(ch))
         i += 1
-    return re.compile('^' + ''.join(out) + '$', re.I | re.S) if wild else None
+    return re.compile('(?:' + ''.join(out) + r')\Z', re.I | re.S) if wild else None
 
 
 UNASSERTED = object()
